@@ -14,7 +14,9 @@ from ..core import listlit, natlit, noise_num, qlit, rank_keys, zlist, zlit
 
 IMPORTS = "From V Require Import Base.OptOrder Model.Sel Model.Aggregation Harness.Run Harness.AggCheck."
 NAN = float("nan")
-ENCODINGS = [([0, 1, 2], NAN), ([10, 20, 30], -1), (["a", "b", "c"], "nan"), ([1, 2, 3], None)]
+ENCODINGS = [([0, 1, 2], NAN), ([10, 20, 30], -1), (["a", "b", "c"], "nan"), ([1, 2, 3], None),
+             # integer label matrices whose classes include negatives (e.g. the binary -1 / +1 coding), integer sentinel
+             ([-1, 1, 2], 0), ([-2, 0, 1], -9), ([0, 1, 2], -1)]
 
 
 def _u():
